@@ -875,12 +875,18 @@ def main():
                        "cycles of length 3 (all 125 edge tuples) and 4 (%s), self.block() recursion below 0-3 super(), super() chains of 30/130/520 templates (always longer than the limit), recursive loops over "
                        "data nested deeper than the limit at top level / in a macro / in a block / in an included template; x limits {1,2,5,10,50,100,250,500} (+ default, 501, 1000, 2^40 on a sample; "
                        "+ EVERY limit in [1,500] on the bare single-edge recursions%s) "
-                       "x {debug, release} x {8 MiB, 2 MiB thread} (+ a sample on the process main thread). "
+                       "x {debug, release} x {8 MiB, 2 MiB thread} (+ a sample on the process main thread); "
+                       "ENVIRONMENT DERIVATION: the pure recursions and a seeded sample of decorated programs rendered through %d ways of obtaining the environment "
+                       "(clone, clone of a clone, modified clone, clone configured after / taken before set_recursion_limit, original after its clone was reconfigured, moved / scoped / Arc-shared "
+                       "to another thread, loader, autoreload acquire_env first / reloaded / fast reload) x %d entry APIs (get_template, template_from_str, template_from_named_str, render_str, "
+                       "render_named_str, render_captured, render_captured_to, new_state + render_block, Captured::with_state_mut + render_block / call_macro) at the limit set + {12, 24, 77, default}: "
+                       "Environment::recursion_limit() of the rendering environment and the level of refusal must follow the CONFIGURED limit. "
                        "non-trivial = distinct (program text, limit) whose recursion goes round at least twice before it is refused (model levels >= 2)"
                        % (len(SPELL["inc"]), len(SPELL["imp"]), len(SPELL["mac"]), len(SPELL["call"]), len(SPELL["blk"]), len(SUPER_SPELL), len(LOOP_SPELL), len(EXTENDS_SPELL),
                           "all 625" if chk.thorough else "a seeded sample of 140",
                           " in every spelling, all bare 2-cycles and a seeded sample of 200 decorated programs" if chk.thorough
-                          else " (first spelling; the other spellings at every limit up to 64 and every 13th above), 2 MiB threads only"))
+                          else " (first spelling; the other spellings at every limit up to 64 and every 13th above), 2 MiB threads only",
+                          len(ENVS), len(APIS)))
     chk.cov["exhaustive"] = False
     chk.cov["programs"] = len(shapes)
     chk.cov["program_limit_pairs"] = len(cases)
